@@ -54,6 +54,10 @@ CLAIMED = {
     text="proof + translator: _draw_decision is re-translated from /repo into Gallina on every run and proved (Props/C14.v) to be the documented table for every ordered carrier, all ratio settings and all non-tie inputs; the generator sets seeded before / drawn from during spike generation are re-extracted and proved to make each candidate's spike train a function of the seed alone; name suffix lemma. Grid of all 27 below/at/above patterns decided in Coq over Qc; benchmark fairness, reproducibility and the name suffix probed through a pygsl stand-in.",
     note="Trusted: Coq kernel/vm_compute; translator (fail-closed ast walker); hypothesis that spike generation reads only the generators found by the translator; GSL replaced by a scripted stand-in (nothing claimed about GSL).",
     technique="Coq proof over code regenerated by a translator + exhaustive grid correspondence", ref="5/C14"),
+ "C11": dict(
+    text="proof (partial): Coq theorems (Props/C11.v): an expression is undefined at a parameter point exactly when one of the collected denominators (bases of negative powers, pre-order) vanishes there; de-duplication loses and repeats nothing; the report is exactly 'solutions of the collected denominators that leave the system matrix defined', each once; under the stated law of the solve oracle every reported condition is genuine (c11_sound) and every point where a propagator entry is undefined satisfies a condition that is reported unless it makes A undefined (c11_complete); symbolic exponents make detection fail exactly where the code raises. Tie: find_singularities(P, A) on triangular chains/trees vs the model with the oracle answers as tables (in Coq, order included); probe: each reported condition substituted into P (some entry zoo/nan) and A (finite), and completeness against the closed-form singular set {a_k = a_l on a common dependency path}.",
+    note="Partial: sympy.solve and the substitution-definedness test are oracles (law stated as hypotheses, validated per instance). Trusted: Coq kernel/vm_compute; harness incl. the structural SymPy-tree translator.",
+    technique="Coq proof (structural induction on expression trees) + oracle-table correspondence", ref="5/C11"),
  "C12": dict(
     text="proof: Coq theorems (Props/C12.v) over an executable model of set_spike_times/get_value/reset: for every flow with phi 0 = id, every spike map, both caching modes and every finite operation history the query returns the exact spike-driven solution; merge keeps every listed spike with multiplicity and is strictly time-sorted. Tie: hand-written model + correspondence decided in Coq on real AnalyticIntegrator runs (exact-in-binary systems) + independent Fraction probe.",
     note="Trusted: Coq kernel/vm_compute; correspondence harness; SymPy/cython evaluate the propagator update (phi is a Section variable with phi 0 = id); theorems over exact arithmetic, floats exercised only on exact-in-binary systems.",
